@@ -27,6 +27,7 @@ func (reg *ResourceRegistry) fetchFile(ctx context.Context, client *http.Client,
 		case <-ctx.Done():
 			return nil // module is shutting down
 		case <-time.After(time.Duration(tries*tries) * time.Second):
+		case <-verifBackoff(tries):
 		}
 	}
 
@@ -156,6 +157,7 @@ func (reg *ResourceRegistry) fetchMissingSig(ctx context.Context, client *http.C
 		case <-ctx.Done():
 			return nil // module is shutting down
 		case <-time.After(time.Duration(tries*tries) * time.Second):
+		case <-verifBackoff(tries):
 		}
 	}
 
@@ -284,6 +286,7 @@ func (reg *ResourceRegistry) fetchData(ctx context.Context, client *http.Client,
 		case <-ctx.Done():
 			return nil, "", nil // module is shutting down
 		case <-time.After(time.Duration(tries*tries) * time.Second):
+		case <-verifBackoff(tries):
 		}
 	}
 
